@@ -453,7 +453,7 @@ fn function_level(rep: &Report, dbs: &[Db]) {
             d.push(format!("product={}", show(&r.product)));
         }
         if r.version != b.version {
-            d.push(format!("version={:?}", r.version));
+            d.push(format!("version={}", show(&r.version)));
         }
         if r.build != b.build {
             d.push(format!("build={:?}", r.build));
@@ -620,7 +620,7 @@ fn sig_fields(db: &Db, cands: &[&Rec], ep: &str) -> String {
         return why.join(",");
     }
     if r.version != "1.0.0" && r.version != "2.0.0" {
-        why.push(format!("version={:?}", r.version));
+        why.push(format!("version={}", show(&r.version)));
     }
     if !r.build.chars().all(|c| c.is_ascii_digit()) || r.build.len() > 9 {
         why.push(format!("build={:?}", r.build));
@@ -852,6 +852,12 @@ pub fn run(tier: Tier, seed: u64) -> i32 {
     }
     for p in &products() {
         subset.push(Db::new(format!("1rec product={}", show(p)), vec![Rec { product: p.clone(), ..base.clone() }]));
+    }
+    // a reply far larger than a socket send buffer (the version is repeated for every region):
+    // a server that hands the reply to the socket with a single write() delivers a prefix
+    {
+        let big = "V".repeat(2 << 20);
+        subset.push(Db::new(format!("1rec version={}", show(&big)), vec![Rec { version: big, ..base.clone() }]));
     }
     subset.extend(multi_record_dbs());
     // one database of every calendar class of the date pairs / triples
